@@ -455,7 +455,7 @@ def r15_3(chk, mod):
     # needs_quote: a string without blanks is never quoted; a string with a blank (and no quote char) is
     nq = mod.ev("needs_quote")
     chk.saw(MOD, "needs_quote")
-    last = nq.returns[-1].value
+    last = nq.returns.pick(-1).value
     has_space = False
     for r in nq.returns:
         ra = r.value.as_atom()
